@@ -2572,7 +2572,7 @@ write_module_class(ostream &out, Object *obj) {
           out << "static int " << def._wrapper_name << "(PyObject *self) {\n";
 
           // Find the remap.  There should be only one.
-          FunctionRemap *remap = *def._remaps.begin();
+          FunctionRemap *remap = sort_remaps_by_signature(def._remaps).front();
           const char *container = "";
 
           if (remap->_has_this) {
@@ -2813,7 +2813,7 @@ write_module_class(ostream &out, Object *obj) {
           out << "static int " << def._wrapper_name << "(PyObject *self, visitproc visit, void *arg) {\n";
 
           // Find the remap.  There should be only one.
-          FunctionRemap *remap = *def._remaps.begin();
+          FunctionRemap *remap = sort_remaps_by_signature(def._remaps).front();
 
           out << "  " << cClassName << " *local_this = nullptr;\n";
           out << "  DTOOL_Call_ExtractThisPointerForType(self, &Dtool_" << ClassName << ", (void **)&local_this);\n";
@@ -2883,7 +2883,7 @@ write_module_class(ostream &out, Object *obj) {
           out << "    return -1;\n";
           out << "  }\n\n";
 
-          FunctionRemap *remap = *def._remaps.begin();
+          FunctionRemap *remap = sort_remaps_by_signature(def._remaps).front();
           vector_string params;
           out << "  return (Py_hash_t) " << remap->call_function(out, 4, false, "local_this", params) << ";\n";
           out << "}\n\n";
